@@ -10,6 +10,9 @@ import Bee2V.C06.Core
 namespace Bee2V.C06
 open Instr Prog
 
+/- `ecpSetO(a, ec)` = `xa <- 1; ya <- 1; za <- 0` is written out in the O-producing branches below (they write
+   all three words since the commit "ec2/ecp doubling and addition set only Z when the result is O") -/
+
 /-- `ecpFromAJ`: `[3n]b <- [2n]a` -/
 def ecpFromAJ (b a : Nat) : Prog :=
   block [copy (cX b) (cX a), copy (cY b) (cY a), one (cZ b)] (ret true)
@@ -27,8 +30,8 @@ def ecpNegJ (b a : Nat) : Prog :=
 /-- `ecpDblJ` (dbl-1998-hnm) -/
 def ecpDblJ (b a s : Nat) : Prog :=
   let t1 := s; let t2 := s + 1
-  ifz (cZ a) (seq (zero (cZ b)) (ret true)) <|
-  ifz (cY a) (seq (zero (cZ b)) (ret true)) <|
+  ifz (cZ a) (block [one (cX b), one (cY b), zero (cZ b)] (ret true)) <|
+  ifz (cY a) (block [one (cX b), one (cY b), zero (cZ b)] (ret true)) <|
   block [
     sqr t1 (cZ a),
     mul (cZ b) (cY a) (cZ a),
@@ -54,8 +57,8 @@ def ecpDblJ (b a s : Nat) : Prog :=
 /-- `ecpDblJA3` (dbl-1998-hnm2, A = -3) -/
 def ecpDblJA3 (b a s : Nat) : Prog :=
   let t1 := s; let t2 := s + 1
-  ifz (cZ a) (seq (zero (cZ b)) (ret true)) <|
-  ifz (cY a) (seq (zero (cZ b)) (ret true)) <|
+  ifz (cZ a) (block [one (cX b), one (cY b), zero (cZ b)] (ret true)) <|
+  ifz (cY a) (block [one (cX b), one (cY b), zero (cZ b)] (ret true)) <|
   block [
     sqr t1 (cZ a),
     mul (cZ b) (cY a) (cZ a),
@@ -80,7 +83,7 @@ def ecpDblJA3 (b a s : Nat) : Prog :=
 /-- `ecpDblAJ` (mdbl-2007-bl): `[3n]b <- 2[2n]a` -/
 def ecpDblAJ (b a s : Nat) : Prog :=
   let t1 := s; let t2 := s + 1; let t3 := s + 2; let t4 := s + 3
-  ifz (cY a) (seq (zero (cZ b)) (ret true)) <|
+  ifz (cY a) (block [one (cX b), one (cY b), zero (cZ b)] (ret true)) <|
   block [
     sqr t1 (cX a),
     sqr t2 (cY a),
@@ -125,7 +128,7 @@ def ecpAddJ (c a b s : Nat) : Prog :=
     mul t2 (cX a) t2,
     sub t1 t1 t2] <|
   ifz t1
-    (ifeq t3 t4 (ecpDblJ c (if c = a then b else a) (s + 4)) (seq (zero (cZ c)) (ret true))) <|
+    (ifeq t3 t4 (ecpDblJ c (if c = a then b else a) (s + 4)) (block [one (cX c), one (cY c), zero (cZ c)] (ret true))) <|
   block [
     mul (cZ c) (cZ c) t1,
     sub t4 t4 t3,
@@ -156,7 +159,7 @@ def ecpAddAJ (c a b s : Nat) : Prog :=
     sub t1 t1 (cX a),
     sub t2 t2 (cY a)] <|
   ifz t1
-    (ifz t2 (ecpDblAJ c b (s + 4)) (seq (zero (cZ c)) (ret true))) <|
+    (ifz t2 (ecpDblAJ c b (s + 4)) (block [one (cX c), one (cY c), zero (cZ c)] (ret true))) <|
   block [
     mul (cZ c) t1 (cZ a),
     sqr t3 t1,
